@@ -108,7 +108,7 @@ def spec_strategy(draw, g, subs, nvdim, dtype):
 @st.composite
 def value_case(draw):
     g, subs = draw(mesh_with_subs())
-    nvdim = draw(st.integers(1, 4))
+    nvdim = draw(gen.nvdim_strategy())
     dtype = draw(st.sampled_from([None, None, "float", "int", "complex", "bool", "inferred-complex"]))
     spec = draw(spec_strategy(g, subs, nvdim, "complex" if dtype == "inferred-complex" else dtype))
     if dtype == "inferred-complex" and spec[0] in ("callable", "dict"):
@@ -335,7 +335,7 @@ def check_value(case):
 @st.composite
 def sample_case(draw):
     g, subs = draw(mesh_with_subs(subs=False, nmax=7))
-    nvdim = draw(st.integers(1, 4))
+    nvdim = draw(gen.nvdim_strategy())
     probes = [draw(gen.probe_spec(g["n"], ("c", "v", "f"))) for _ in range(draw(st.integers(1, 5)))]
     return {"g": g, "nvdim": nvdim, "vdims": draw(gen.vdims_strategy(nvdim)), "seed": draw(st.integers(0, 2**31)),
             "dtype": draw(st.sampled_from([None, "int", "complex"])), "probes": probes,
@@ -438,7 +438,7 @@ def line_case(draw):
     g, _ = draw(mesh_with_subs(subs=False, nmax=7))
     if g.get("dims") and "r" in g["dims"]:
         g["dims"] = None  # see DESIGN section 6: a dimension called 'r' collides with the distance column
-    nvdim = draw(st.integers(1, 4))
+    nvdim = draw(gen.nvdim_strategy())
     kinds = ("c", "v", "f")
     mode = draw(st.sampled_from(["corner", "corner", "free", "free", "end-on-face", "end-on-face"]))
     if mode == "corner":
